@@ -90,7 +90,7 @@ ELEM_ALIAS = {
 
 
 # measured > ~45 s: thorough tier only
-STEP_THOROUGH = {"STORE_LOCAL", "NEG", "ARR_SET", "LOAD_LOCAL"}
+STEP_THOROUGH = {"STORE_LOCAL", "NEG", "ARR_SET", "LOAD_LOCAL", "TUPLE_GET"}
 ELEM_THOROUGH = {"TUPLE_GET", "ARR_GET", "STRUCT_GET", "UNION_FIELD", "ARR_REMOVE"}
 
 
